@@ -78,7 +78,7 @@ def evaluate(run, wd, prefix, what):
             run.violation("bytes-model:" + key,
                           "%s (%d bytes, status %d): %s; model verdict: %s" % (c["label"], len(c["body_hex"]) // 2, c["status"], desc,
                                                                               CLASSES[cls] if cls is not None and cls < 8 else "?"),
-                          dict(case=cid, label=c["label"], status=c["status"], body_hex=c["body_hex"],
+                          dict(case=cid, label=c["label"], status=c["status"], body_hex=c["body_hex"], lookups_hex=c.get("lookups_hex", ""),
                                implementation=dict(client_execute=c["client_execute"], request_decode=c["request_decode"],
                                                    server_request=c.get("server_request")),
                                model=CLASSES[cls] if cls is not None and cls < 8 else None, code=code, case_file=f,
@@ -104,7 +104,7 @@ def replay(doc):
         print("harness does not build:", log[-800:])
         return 2
     d = tempfile.mkdtemp(prefix="bytes_replay_")
-    rc, out, _ = vlib.run_harness(hbin, ["bytes-one", rp["body_hex"], d, str(rp.get("status", 200)), str(doc.get("seed", 1))])
+    rc, out, _ = vlib.run_harness(hbin, ["bytes-one", rp["body_hex"], d, str(rp.get("status", 200)), str(doc.get("seed", 1)), rp.get("lookups_hex", "")])
     print("body (%d bytes): %s" % (len(rp["body_hex"]) // 2, rp["body_hex"][:200] + ("..." if len(rp["body_hex"]) > 200 else "")))
     print("implementation now:", out.strip())
     print("implementation at the time of the check:", json.dumps(rp.get("implementation")))
